@@ -2,6 +2,15 @@
 HOOK_COMMITS = []
 NOT_APPLICABLE = {}
 CLAIMS = {
+    "C09": dict(
+        text="spec/Loads.tla enumerates (dimension, load kind {line, surface, volume, pressure, concentrated}, region {edges, faces, a 3-D edge, the bulk of the integer box}, polynomial density of degree 0-2 per direction, thickness, "
+        "value form {constant, function of position, nodal array}, stray interior nodes in the selection, node listed twice) and computes resultant and first moments in exact rationals (monomial integrals over intervals). Each TLC state is "
+        "replayed on gmsh meshes of every element type of that dimension for Elastic (and Thermal) through add_lineLoad / add_surfLoad / add_volumeLoad / add_pressureLoad / add_neumann; Bc_vector_Neumann() is summed per direction and its first "
+        "moments compared at 1e-10; stray nodes must receive nothing. Hermitian line loads on Euler-Bernoulli / Timoshenko beams: resultant and moment (incl. nodal couples).",
+        note="Trusted: TLC for the exact integrals, gmsh box meshes. First moments are compared for densities of degree <= 1, resultants up to degree 2 (exactness of the mass rules); pressure is compared in magnitude and direction up to the sign convention.",
+        technique="TLA+ exact-integral model enumerated by TLC; each state replayed through the load API on every element type",
+        design_ref="DESIGN.md 6/C09",
+    ),
     "C01": dict(
         text="spec/Pipeline.tla enumerates the configuration product (elasticity 2D/3D and heat conduction x element type x law {isotropic, transversely isotropic, orthotropic, anisotropic with rotated axes} x plane stress / plane strain x mesh kind "
         "{unstructured, renumbered, mixed TRI3+QUAD4 / prism boundary} x affine map {identity, shear+stretch, orientation-reversing} x basis of linear fields + a combination; Euler-Bernoulli and Timoshenko beams on SEG2..SEG5 in 1D/2D/3D with "
